@@ -226,6 +226,37 @@ def run(ctx: Ctx) -> int:
     insts = [c for c in calls_in(ipt) if call_leaf(c) == "isinstance" and len(c.args) == 2]
     ok = len(insts) == 1 and isinstance(insts[0].args[1], ast.Name) and insts[0].args[1].id == "Path" and ctx.repo.modules["typing"].imports.get("Path", ("", ""))[0].endswith("_util")
     ctx.oblige("C19.b", ok, insts[0] if insts else ipt, "a value counts as already of a path type only if it is an instance of jsonargparse's Path" if ok else f"the 'already of this type' test of the path types is `{ast.unparse(insts[0]) if insts else '?'}`, wider than jsonargparse's Path: a pathlib.Path (default, parse_object) is accepted without any mode check and without relative/absolute bookkeeping", fn=ipt, construct="path type check")
+    # what counts as absolute: an operating-system absolute path, or a URL - and a URL has `://` in it.  A bare
+    # `name:` prefix is a legal relative file name (`stage:train.yaml`).  The language of the URL test is compared
+    # with  .*://.*  (regular-language inclusion)
+    iap = ctx.func("_util:is_absolute_path")
+    pp_ = iap.args.args[0].arg
+    url_tests = [n_ for n_ in walk_local(iap) if isinstance(n_, ast.If)]
+    ctx.need(url_tests, "is_absolute_path: URL test")
+    ut = url_tests[0].test
+    verdict, why_ = None, ""
+    txt_ = ast.unparse(ut).replace(" ", "").replace('"', "'")
+    if txt_ in (f"{pp_}.find('://')>0", f"{pp_}.find('://')>=0", f"{pp_}.find('://')!=-1", f"'://'in{pp_}"):
+        verdict = True
+    else:
+        rm = [c for c in ast.walk(ut) if isinstance(c, ast.Call) and call_name(c) in ("re.match", "re.search", "re.fullmatch") and c.args and const_str(c.args[0]) is not None]
+        if len(rm) == 1 and isinstance(ut, ast.Call):
+            from .relang import DFA
+
+            rx = const_str(rm[0].args[0])
+            mode_ = {"re.match": "match", "re.fullmatch": "fullmatch", "re.search": "search"}[call_name(rm[0])]
+            if mode_ == "search":
+                rx, mode_ = "(?s:.*)(?:" + rx + ")", "match"
+            lang = DFA.from_regex(rx, mode=mode_)
+            if mode_ == "match":
+                lang = DFA.from_regex("(?:" + rx + ")(?s:.*)", mode="fullmatch")
+            urls = DFA.from_regex("(?s:.*)://(?s:.*)", mode="fullmatch")
+            okk, wit_ = urls.includes(lang)
+            verdict, why_ = okk, f"e.g. {wit_!r}"
+    if verdict is None:
+        raise AnalysisError(f"is_absolute_path: cannot read the URL test `{ast.unparse(ut)}`")
+    ctx.oblige("C19.b", verdict, ut, "a non-OS-absolute path counts as absolute only if it contains `://` (a URL)" if verdict else f"the URL test of is_absolute_path accepts text without `://` ({why_}): a relative file name with a colon is taken for absolute, is not joined with the directory it belongs to, and is read / written in the process working directory instead", fn=iap, construct="absolute means OS-absolute or URL")
+
     # parse_value_or_config hands back the path it read the value from, whatever kind of value the file held:
     # callers resolve relative entries of the value against that file's directory
     pvc = ctx.func("_util:parse_value_or_config")
